@@ -96,6 +96,19 @@ func posExec(cs fw.Case) *fw.Fail {
 		if got := fmt.Sprintf("err=%v log=%q", after.Err, after.Log); got != before {
 			return fw.Failf("positions survive dump and load: "+fw.Trunc(before, 300), "%s", fw.Trunc(got, 300))
 		}
+		// ... and when the dump is loaded (exported Load method) into a Prog that held a longer program before
+		var o2, l2 bytes.Buffer
+		q, qerr := bcl.Parse([]byte(strings.Repeat("\n# filler line\n", 40)+"print 1\n\n\n"), "input", bcl.OptOutput(&o2), bcl.OptLogger(&l2))
+		if qerr == nil {
+			if lerr := q.Load(bytes.NewReader(dump)); lerr != nil {
+				return fw.Failf("dump loads into a used Prog", "%v", lerr)
+			}
+			l2.Reset()
+			_, _, e2 := bcl.Execute(q)
+			if got := fmt.Sprintf("err=%v log=%q", e2, l2.String()); got != before {
+				return fw.Failf("positions survive a load into a Prog that held a longer program: "+fw.Trunc(before, 300), "%s", fw.Trunc(got, 300))
+			}
+		}
 		fw.TallyOutcome(info.Class)
 		if info.Class != "accepted-ok" || len(lfs) > 0 {
 			fw.TallyNontrivial()
